@@ -240,7 +240,7 @@ class RfProp(Prop):
         for _ in range(n):
             r = rng.random()
             if self.faults and r < 0.25:
-                script.append((1, rng.choice([1, 2, 3, 4, 5, 6, 7]), 0) if rng.random() < 0.85 else (2, 0, 0))
+                script.append((1, rng.choice([1, 2, 3, 4, 5, 6, 7]) + (100 if rng.random() < 0.3 else 0), 0) if rng.random() < 0.85 else (2, 0, 0))
             elif self.scribble and r < 0.5:
                 script.append((0, rng.choice([0, 1, 2, 3, 2 ** 64 - 1]), rng.choice([1, 2, 5, 2 ** 64 - 1])))
             else:
@@ -455,7 +455,7 @@ class C06(RfProp):
                     for parts in comps:
                         base = [(0, k, 0) for k in parts]
                         for pos in range(len(base) + 1):
-                            for fault in ((1, 5, 0), (1, 3, 0), (2, 0, 0), (1, 6, 0), (1, 2, 0)) if (pos + len(st)) % 2 == 0 else ((1, 4, 0), (1, 7, 0), (1, 1, 0)):
+                            for fault in ((1, 5, 0), (1, 3, 0), (2, 0, 0), (1, 6, 0), (1, 2, 0), (1, 103, 0)) if (pos + len(st)) % 2 == 0 else ((1, 4, 0), (1, 7, 0), (1, 1, 0), (1, 106, 0)):
                                 script = base[:pos] + [fault] + base[pos:]
                                 cases.append(mk_case(size, which, [], 0, st, script, min(len(st) + 4, 8), 0, "fault-at-every-index"))
         for _ in range(3000 if tier == "quick" else 60000):
@@ -483,8 +483,8 @@ class C06(RfProp):
             faulted = [a for (_, a, _, _) in per[k] if a[0] in (1, 2, 3)]
             if faulted:
                 a = faulted[-1]
-                want = ("panic",) if a[0] == 2 else ("err", a[1] if a[0] == 1 else 4)
-                if got != want and not (a[0] == 1 and a[1] == 3):   # an Interrupted read may be retried transparently
+                want = ("panic",) if a[0] == 2 else ("err", a[1] % 100 if a[0] == 1 else 4)
+                if got != want and not (a[0] == 1 and a[1] % 100 == 3):   # an Interrupted read may be retried transparently
                     return "call %d: reader failed with %r but read_frame returned %r" % (k, want, got)
                 if got == want and list(c.readable) != list(prev.readable) + delivered:
                     return ("call %d: after the reader fault readable() is %r; bytes held before %r ++ bytes delivered in this call %r were expected"
